@@ -26,6 +26,54 @@ add("C19", True, "exploration",
     "partition the 12x12 cell). Sizes above 48 are not enumerated.",
     "DESIGN.md section 5, C19")
 
+add("C11", True, "exploration",
+    "exhaustive enumeration of small tori with scripted tie-breaks + "
+    "Hypothesis sampling of large ones, oracle = BFS graph distance",
+    "All tori up to 8x8 (quick) / 16x16 (thorough): every source/destination "
+    "pair, three three-axis representations each and every outcome of the "
+    "random tie-breaks (rig's module-level random replaced by a scripted "
+    "object) are compared with BFS distance; sizes up to 256 are sampled "
+    "against the lattice-image formula; mesh functions, link tables and "
+    "concentric hexagons are enumerated in windows.",
+    "Trusted: vf/oracle/hexgrid.py (BFS and image formula cross-checked at "
+    "start-up). Larger tori are sampled, not enumerated.",
+    "DESIGN.md section 5, C11")
+add("C12", True, "exploration",
+    "Hypothesis-generated target sets built from blocks/rectangles/sparse "
+    "chips, oracle = expansion of region words with multiplicity",
+    "Generated unions of full, nearly-full and straddling blocks are "
+    "compressed and every returned (region, mask) pair is expanded under the "
+    "documented meaning of the word; the multiset of selected cores must equal "
+    "the request exactly once each, in strictly increasing order. All 65536 "
+    "single-chip words x 4 levels are enumerated.",
+    "Trusted: the region-word semantics transcribed in vf/props/c12.py. "
+    "Subsets of the 256x256x18 space are sampled by construction, not "
+    "enumerated.",
+    "DESIGN.md section 5, C12")
+add("C15", True, "exploration",
+    "Hypothesis round-trip and differential decoding against a reference "
+    "codec + exhaustive per-field value sweeps",
+    "Encoding is compared byte for byte with a reference codec written from "
+    "the documented layout, decoding with the same and with other argument "
+    "counts against the reference decoder, arbitrary datagrams are decoded "
+    "and re-encoded; every value of every field up to 16 bits and all 2^16 "
+    "port/core byte pairs are enumerated.",
+    "Trusted: vf/oracle/sdpcodec.py. Field values outside their width and "
+    "non-leading argument patterns are outside the domain.",
+    "DESIGN.md section 5, C15")
+add("C16", True, "exploration",
+    "Hypothesis with floats constructed around range ends, oracle = exact "
+    "rational arithmetic",
+    "Scalar conversion is compared with clamp(trunc(v*2^f)) computed in exact "
+    "arithmetic for floats built +-3 ulp around both range ends of every "
+    "format 8-64 bits, monotonicity and the one-step error bound are checked "
+    "directly, round trips for all double-representable fixed-point values, "
+    "array converters element-wise against the scalar ones incl. dtype and "
+    "shape, deprecated variants modulo 2^n.",
+    "Trusted: fractions.Fraction, math.nextafter. Values with > 53 "
+    "significant bits are outside the round-trip clause by necessity.",
+    "DESIGN.md section 5, C16")
+
 
 def main():
     checks = []
